@@ -69,12 +69,12 @@ package meshops
 //@ func RemovedUnreferencedVertices
 //@   props C01 C02 C03
 //@   requires modeling.wf(m)
-//@   requires modeling.emptyOK(m)
 //@   returns r
 //@   ensures unchanged_parts: r.topology == m.topology && r.materials == m.materials
 //@   ensures same_index_count: len(r.indices) == len(m.indices) && fresh(r.indices)
 //@   ensures [C02] well_formed_lengths: modeling.sameLen(r)
 //@   ensures [C02] well_formed_indices: modeling.idxOK(r)
+// (undecided, not claimed: modeling.emptyOK(r) - "if every attribute vanished so did every index"; the provers do not find the witness)
 //@   ensures [C02] well_formed_topology: modeling.topoOK(r)
 //@   loop 1:
 //@     invariant bounds: 0 <= i && i <= len(m.indices) && fresh(used) && off(used) == 0 && modeling.attrLenIs(m, len(used))
